@@ -105,7 +105,12 @@ def qsLine (esize kind seed : Nat) (keys : List Int) : String :=
   let cmp : (Int × Nat) → (Int × Nat) → Int := fun x y => cmpKeys kind x.1 y.1
   match qsort cmp (randStream (a.length + 1) (seed % 2 ^ 32)) a with
   | none => "fault"
-  | some (out, _) => showElems (esize > 1) (canonLex cmp pairLe (out.map fun e => (e.1, if esize > 1 then e.2 else 0)))
+  | some (out, _) =>
+    -- round 3b: the harness computes the RUN-based form (`canon_runs` = `canonRuns`), the theorems are about
+    -- `canonLex`; that the two agree on the model's (ordered) output is checked here on every op
+    let o := out.map fun e => (e.1, if esize > 1 then e.2 else 0)
+    let c := canonLex cmp pairLe o
+    if c == canonRuns cmp pairLe o then showElems (esize > 1) c else "canonLex-differs-from-canonRuns"
 
 /-- the nested calls of the ops `qsn` / `bsn`: in the model a call made from inside a comparator is an
 independent call (the model has no state: `qsort_nested_comparator`), so the line is what the inner
@@ -258,13 +263,8 @@ def stepLine (_ : Unit) (line : String) : Unit × String :=
         let kind ← kind.toNat?
         let seed ← seed.toNat?
         let keys ← ints? keys
-        let a : List (Int × Nat) := keys.zipIdx
-        let cmp : (Int × Nat) → (Int × Nat) → Int := fun x y => cmpKeys kind x.1 y.1
-        match qsort cmp (randStream (a.length + 1) (seed % 2 ^ 32)) a with
-        | none => pure "fault"
-        | some (out, _) =>
-          -- canonical form: the arrangement inside a run of equal elements is not fixed by the property
-          pure (showElems (esize > 1) (canonLex cmp pairLe (out.map fun e => (e.1, if esize > 1 then e.2 else 0))))
+        -- canonical form: the arrangement inside a run of equal elements is not fixed by the property
+        pure (qsLine esize kind seed keys)
     | [bd, _, kind, key, keys] => do
         let kind ← kind.toNat?
         let key ← key.toInt?
